@@ -2,7 +2,8 @@
 """tools/mut_survivors.py <file.py>: surviving mutants of mutation/<file>.jsonl grouped by enclosing function"""
 import ast, json, sys
 f = sys.argv[1]
-src = open(f'/repo/src/kyupy/{f}').read()
+import subprocess
+src = subprocess.check_output(['git', '-C', '/repo', 'show', f'9619ea0:src/kyupy/{f}']).decode()      # the tree the mutants were made from
 tree = ast.parse(src)
 spans = []
 for n in ast.walk(tree):
